@@ -249,14 +249,16 @@ def run_universe(spec, ctx):
 
 def gen_random(g):
     rng = g.rng
-    names = rng.choice([["q0", "q1"], ["q0", "q1", "q2"], ["q1", "q10"], ["q0"]])
+    pools = [["q0", "q1"], ["q0", "q1", "q2"], ["q1", "q10"], ["q0"], ["q2", "q10"], ["q2"], ["q10"],
+             ["q1", "q2", "q10"]]
+    names = rng.choice(pools)
     degree = rng.choice([1, 2, 3, 4])
-    rows = [r for r in itertools.product(range(degree + 1), repeat=len(names)) if sum(r) <= degree]
-    rng.shuffle(rows)
     kind = rng.choice(["int", "int", "float"])
     base = g.shape(2)
 
-    def make(shape):
+    def make(shape, names=names):
+        rows = [r for r in itertools.product(range(degree + 1), repeat=len(names))
+                if sum(r) <= degree]
         nrows = rng.randint(1, min(len(rows), 8))
         chosen = rng.sample(rows, nrows)
         coefs = [g.array_data(shape, kind, zero_prob=0.35) for _ in chosen]
@@ -275,8 +277,11 @@ def gen_random(g):
         b = {**a, "coefs": [c for c in a["coefs"]]}
         k = rng.randrange(len(b["coefs"]))
         b["coefs"][k] = G.nested_map(G.jnum, g.array_data(base, kind, zero_prob=0.2))
-    else:
+    elif roll < 0.75:
         b = make(g.compatible_shape(base))
+    else:
+        # the operands mention different indeterminates (the union is ordered by index: q2 < q10)
+        b = make(g.compatible_shape(base), rng.choice([p for p in pools if p != names]))
     if rng.random() < 0.3:
         a, b = b, a
     return {"kind": "random", "a": a, "b": b, "graded": rng.random() < 0.6,
